@@ -236,14 +236,15 @@ example : ∃ s',
   exact ⟨s', hr, _, hs'⟩
 
 open PycModel.DeclSkel PycModel.TypeModify PycModel.View PycModel.FullExpr PycModel.DeclParse PycModel.BuildDecl PycModel.Init in
-/-- non-vacuity, brace initializers: `int a [ 2 ] [ 2 ] = { { 1 , x } , { } , } ;` - nested lists stay
-nested, the trailing comma leaves no trace, the empty list is located at its `{`, a non-empty one at
-its first item -/
+/-- non-vacuity, brace initializers: `int a [ 2 ] [ 2 ] = { { 1 , x } , [ 1 ] = { } , } ;` - nested lists
+stay nested, a designated item is a `NamedInitializer`, the trailing comma leaves no trace, the empty
+list is located at its `{`, a non-empty one at its first item -/
 example : ∃ s',
     run 200 .declaration
       (initState ([("INT", "int"), ("ID", "a"), ("LBRACKET", "["), ("INT_CONST_DEC", "2"), ("RBRACKET", "]"), ("LBRACKET", "["),
                    ("INT_CONST_DEC", "2"), ("RBRACKET", "]"), ("EQUALS", "="), ("LBRACE", "{"), ("LBRACE", "{"),
-                   ("INT_CONST_DEC", "1"), ("COMMA", ","), ("ID", "x"), ("RBRACE", "}"), ("COMMA", ","), ("LBRACE", "{"),
+                   ("INT_CONST_DEC", "1"), ("COMMA", ","), ("ID", "x"), ("RBRACE", "}"), ("COMMA", ","), ("LBRACKET", "["),
+                   ("INT_CONST_DEC", "1"), ("RBRACKET", "]"), ("EQUALS", "="), ("LBRACE", "{"),
                    ("RBRACE", "}"), ("COMMA", ","), ("RBRACE", "}"), ("SEMI", ";")].map (fun t => SEv.tok t.1 t.2) ++ [.eof]))
       = .ok [mk .Decl (tc 1) [.str "a", .list [], .list [], .list [], .list [],
                mk .ArrayDecl (tc 1) [
@@ -253,24 +254,27 @@ example : ∃ s',
                  mk .Constant (tc 3) [.str "int", .str "2"], .list []],
                mk .InitList (tc 11) [.list [
                  mk .InitList (tc 11) [.list [mk .Constant (tc 11) [.str "int", .str "1"], mk .ID (tc 13) [.str "x"]]],
-                 mk .InitList (tc 16) [.list []]]],
+                 mk .NamedInitializer none [.list [mk .Constant (tc 17) [.str "int", .str "1"]], mk .InitList (tc 20) [.list []]]]],
                .none]] s' ∧ (∃ env, SeesT env s' []) := by
   let c1 : X := .const "INT_CONST_DEC" "1" "int"
   let c2 : X := .const "INT_CONST_DEC" "2" "int"
-  let init : I := .list (.cons (.list (.cons (.expr c1) (.cons (.expr (.id "x")) .nil)) false) (.cons (.list .nil false) .nil)) true
+  let init : I := .list (.cons [] (.list (.cons [] (.expr c1) (.cons [] (.expr (.id "x")) .nil)) false)
+    (.cons [.index c1] (.list .nil false) .nil)) true
   let dc : Dcl :=
     { specs := [("INT", "int")],
       first := { d := .arr (.arr (.name "a") (some c2)) (some c2), init := some init },
       more := [] }
-  have hc : ∀ c : X, c = c1 ∨ c = c2 → WFX 1 c := by
-    intro c h; rcases h with rfl | rfl <;> exact .const _ _ _ _ (by decide)
+  have hc : ∀ (L : Nat) (c : X), c = c1 ∨ c = c2 → WFX L c := by
+    intro L c h; rcases h with rfl | rfl <;> exact .const _ _ _ _ (by decide)
+  have hnd : ∀ d ∈ ([] : List Desig), d.WF := by intro d h; cases h
   have hwf : WFDcl dc := by
     refine ⟨by simp [dc, SpecToks, typeSpecSimple], ?_, rfl, ⟨?_, ?_⟩, by intro it h; cases h⟩
     · intro t ht; simp only [dc, List.mem_singleton] at ht; subst ht; exact ⟨by decide, by decide⟩
-    · refine .arr _ _ (.arr _ _ (.name _) rfl ?_) rfl ?_ <;> (intro e h; cases h; exact hc _ (.inr rfl))
+    · refine .arr _ _ (.arr _ _ (.name _) rfl ?_) rfl ?_ <;> (intro e h; cases h; exact hc _ _ (.inr rfl))
     · intro i h; cases h
-      refine .list _ _ _ (.cons _ _ (.list _ _ _ (.cons _ _ (.expr _ (hc _ (.inl rfl))) (.cons _ _ (.expr _ (.id _ _)) .nil)))
-        (.cons _ _ .empty .nil))
+      refine .list _ _ _ _ (.cons _ _ _ hnd (.list _ _ _ _ (.cons _ _ _ hnd (.expr _ (hc _ _ (.inl rfl)))
+        (.cons _ _ _ hnd (.expr _ (.id _ _)) .nil))) (.cons _ _ _ ?_ .empty .nil))
+      intro d hd; simp only [List.mem_singleton] at hd; subst hd; exact hc 2 _ (.inl rfl)
   have hs := ParenExpr.seesT_init (dc.flat ++ [])
   obtain ⟨s', hr, hs', _⟩ := parse_declaration dc hwf (fun _ _ => rfl) _ [] hs 200 (by decide)
   exact ⟨s', hr, _, hs'⟩
